@@ -81,6 +81,15 @@ func c07Doc(r *rand.Rand, variant int) (*sbom.Document, string) {
 			nd.PrimaryPurpose = append(nd.PrimaryPurpose, sbom.Purpose(gen.Pick(r, []int32{-1, 29, 1000, -2147483648})))
 			nd.Type = sbom.Node_NodeType(gen.Pick(r, []int32{-1, 2, 1000}))
 		}
+		if r.Intn(6) == 0 {
+			// several identifiers that compete for one slot of the target format, one of them possibly empty:
+			// which one is written must not depend on the order in which the map is walked
+			if nd.Identifiers == nil {
+				nd.Identifiers = map[int32]string{}
+			}
+			nd.Identifiers[int32(sbom.SoftwareIdentifierType_CPE22)] = gen.Pick(r, []string{"cpe:/a:v:p:1", "cpe:/a:v:p:1", ""})
+			nd.Identifiers[int32(sbom.SoftwareIdentifierType_CPE23)] = gen.Pick(r, []string{"cpe:2.3:a:v:p:1:*:*:*:*:*:*:*", "", ""})
+		}
 		doc.NodeList.Nodes = append(doc.NodeList.Nodes, nd)
 	}
 	cand := append(append([]string{}, ids...), "dangling", "")
